@@ -3,6 +3,6 @@
    positive and nat stay the Coq inductive datatypes. *)
 Require Extraction.
 Require Import ExtrOcamlBasic.
-Require Import Model.Base Model.Field Model.Ir Model.Propagate Model.FieldDispatch Spec.FieldSpec Spec.DispatchSpec.
+Require Import Model.Base Model.Field Model.Ir Model.Propagate Model.FieldDispatch Model.FieldPow Spec.FieldSpec Spec.DispatchSpec.
 Separate Extraction Base.base_roots Base.outcome Field.eval Field.all_fops FieldSpec.spec_exec
-  Ir.expr_val FieldDispatch.propagate_lit FieldDispatch.lit_dispatch DispatchSpec.doc_eval.
+  Ir.expr_val FieldDispatch.propagate_lit FieldDispatch.lit_dispatch DispatchSpec.doc_eval FieldPow.modpow_steps.
